@@ -340,3 +340,135 @@ def _gen_search(rng):
 
 
 search.gen = _gen_search
+
+
+# ------------------------------------------------------------- trial wrappers
+# C08 'reports that trial's true costs': the wrappers that post-process a trial's tree in place (slice,
+# anneal, reconfigure) record, after the post-processing, the figures of the tree AS IT IS THEN; the
+# figures before are kept under original_* (only if not recorded yet).
+WrapT = Ty.SDict({"tree": Ty.Key, "flops": Ty.Int, "write": Ty.Int, "size": Ty.Int,
+                  "original_flops": Ty.Int, "original_write": Ty.Int, "original_size": Ty.Int, "score": Ty.Real, "time": Ty.Real})
+StatsT = Ty.SDict({"flops": Ty.Int, "write": Ty.Int, "size": Ty.Int})
+
+
+def _ver(engine, st, tree_term):
+    """current 'version' of a tree (changes whenever it is restructured in place)"""
+    m = st.vars.get("__treever__")
+    if m is None:
+        m = V(Ty.Map(Ty.Key, Ty.Int), [z3.K(Ty.IntS, z3.BoolVal(True)), z3.Const("treever0", z3.ArraySort(Ty.IntS, Ty.IntS))])
+        st.vars["__treever__"] = m
+    return m.c[1][tree_term]
+
+
+def x_stats(engine, st, args, node, kw):
+    t = engine.keyterm(engine.deref(st, args[0]))
+    v = _ver(engine, st, t)
+    comps = []
+    for name_ in ("flops", "write", "size"):
+        f = engine.specfns.setdefault(f"uf!stat_{name_}", (z3.Function(f"uf!stat_{name_}", Ty.IntS, Ty.IntS, Ty.IntS), [], Ty.Int, None))[0]
+        comps += [z3.BoolVal(True), f(t, v)]
+    return engine.alloc(st, V(StatsT, comps))
+
+
+def x_restructure(engine, st, args, node, kw):
+    t = engine.keyterm(engine.deref(st, args[0]))
+    _ver(engine, st, t)
+    m = st.vars["__treever__"]
+    st.vars["__treever__"] = V(m.t, [m.c[0], z3.Store(m.c[1], t, engine.fresh(st, "newver", node, Ty.IntS))])
+    return Ty.mk_none()
+
+
+def x_stat_now(which):
+    def ext(engine, st, args, node, kw):
+        t = engine.keyterm(engine.deref(st, args[0]))
+        f = engine.specfns.setdefault(f"uf!stat_{which}", (z3.Function(f"uf!stat_{which}", Ty.IntS, Ty.IntS, Ty.IntS), [], Ty.Int, None))[0]
+        return V(Ty.Int, [f(t, _ver(engine, st, t))])
+
+    return ext
+
+
+def x_trial_fn(engine, st, args, node, kw):
+    t = Ty.sdict_empty(WrapT, "trial")
+    comps = list(t.c)
+    comps[WrapT.offsets()["tree"][0]] = z3.BoolVal(True)
+    # an inner wrapper may already have recorded original_* : presence is arbitrary
+    for nm in ("original_flops", "original_write", "original_size"):
+        comps[WrapT.offsets()[nm][0]] = engine.fresh(st, f"has_{nm}", node, Ty.BoolS)
+    return engine.alloc(st, V(WrapT, comps))
+
+
+WRAP_EXT = {
+    "SlicedTrialFn.trial_fn": x_trial_fn, "SimulatedAnnealingTrialFn.trial_fn": x_trial_fn, "ReconfTrialFn.trial_fn": x_trial_fn, "SlicedReconfTrialFn.trial_fn": x_trial_fn, "*.contract_stats": x_stats, "*.slice_": x_restructure, "*.simulated_anneal_": x_restructure,
+    "*.subtree_reconfigure_": x_restructure, "*.subtree_reconfigure_forest_": x_restructure, "*.slice_and_reconfigure_": x_restructure,
+    "*.slice_and_reconfigure_forest_": x_restructure, "*.attr:already_optimized": lambda engine, st, args, node, kw: engine.alloc(st, V(Ty.Set(Ty.Key), [z3.K(Ty.IntS, z3.BoolVal(False))])),
+    "flops_now": x_stat_now("flops"), "write_now": x_stat_now("write"), "size_now": x_stat_now("size"),
+}
+WRAP_ENS = [
+    "'tree' in result and 'flops' in result and 'write' in result and 'size' in result",
+    # the figures recorded are those of the tree in its final state
+    "result['flops'] == flops_now(result['tree']) and result['write'] == write_now(result['tree']) and result['size'] == size_now(result['tree'])",
+    "'original_flops' in result and 'original_write' in result and 'original_size' in result",
+]
+
+
+def mk_wrap(cls, fields):
+    return Contract(
+        target=f"cotengra.hyperoptimizers.hyper:{cls}.__call__", props=["C08"],
+        self_type=ObjT(cls, fields), params={"*ok": True}, returns=WrapT, hints={"trial": WrapT},
+        externals=WRAP_EXT, ensures=WRAP_ENS,
+        assumptions=["the wrapped trial function returns a trial dict holding a tree; contract_stats() reports the figures of the tree as it is when called;"
+                     " slice_/simulated_anneal_/subtree_reconfigure_/... restructure that tree in place (its figures afterwards are arbitrary)"],
+    )
+
+
+OptsT = Ty.Key
+wrap_sliced = mk_wrap("SlicedTrialFn", {"opts": OptsT})
+wrap_anneal = mk_wrap("SimulatedAnnealingTrialFn", {"opts": OptsT})
+wrap_reconf = mk_wrap("ReconfTrialFn", {"opts": OptsT, "forested": Ty.Bool, "parallel": Ty.Bool})
+wrap_sliced_reconf = mk_wrap("SlicedReconfTrialFn", {"opts": OptsT, "forested": Ty.Bool, "parallel": Ty.Bool})
+CONTRACTS += [wrap_sliced, wrap_anneal, wrap_reconf, wrap_sliced_reconf]
+
+
+def _rebuilt_stats(tree):
+    """figures of a tree recomputed from scratch (same path, same sliced indices)"""
+    import cotengra as ctg
+
+    t2 = ctg.ContractionTree.from_path(tree.inputs, tree.output, tree.size_dict, path=tree.get_path())
+    for ix, si in tree.sliced_inds.items():
+        t2.remove_ind_(ix, project=si.project)
+    return t2.contract_stats()
+
+
+def _mk_wrap_gen(cls_name):
+    def gen(rng):
+        import cotengra as ctg
+        import cotengra.hyperoptimizers.hyper as H
+        from ..scope import random_tree_ssa
+
+        n = rng.randint(4, 7)
+        con = ctg.utils.rand_equation(n, 3, n_out=rng.randint(0, 2), seed=rng.randint(0, 10**6), d_min=2, d_max=4)
+
+        def trial_fn(*a, **k):
+            tree = ctg.ContractionTree.from_path(con.inputs, con.output, con.size_dict, ssa_path=random_tree_ssa(n, rng))
+            return {"tree": tree, "flops": -1, "write": -1, "size": -1}
+
+        cls = getattr(H, cls_name)
+        if cls_name == "SlicedTrialFn":
+            w = cls(trial_fn, target_size=max(1, 2 ** rng.randint(1, 4)), seed=rng.randint(0, 99))
+        elif cls_name == "SimulatedAnnealingTrialFn":
+            w = cls(trial_fn, tsteps=2, numiter=3, seed=rng.randint(0, 99))
+        elif cls_name == "ReconfTrialFn":
+            w = cls(trial_fn, forested=False, subtree_size=4, maxiter=3)
+        else:
+            w = cls(trial_fn, forested=False, target_size=max(2, 2 ** rng.randint(2, 5)), max_repeats=2)
+        return {"self": w, "args": (), "bind": {"flops_now": lambda t: _rebuilt_stats(t)["flops"], "write_now": lambda t: _rebuilt_stats(t)["write"],
+                                                 "size_now": lambda t: _rebuilt_stats(t)["size"]},
+                "describe": f"{cls_name} on {con.inputs}->{con.output} sizes {con.size_dict}"}
+
+    return gen
+
+
+wrap_sliced.gen = _mk_wrap_gen("SlicedTrialFn")
+wrap_anneal.gen = _mk_wrap_gen("SimulatedAnnealingTrialFn")
+wrap_reconf.gen = _mk_wrap_gen("ReconfTrialFn")
+wrap_sliced_reconf.gen = _mk_wrap_gen("SlicedReconfTrialFn")
